@@ -24,6 +24,7 @@ type HSpec struct {
 	Before bool   `json:"before"` // registered before the session is constructed
 	Mod    int    `json:"mod"`    // outgoing: refuse when callIndex % Mod == Rem (Mod 0: never)
 	Rem    int    `json:"rem"`
+	Modify bool   `json:"modify"` // outgoing: the handler changes the message (TargetCompID) before looking at it
 }
 
 type C19Case struct {
@@ -48,6 +49,9 @@ func genC19(t *rapid.T) *C19Case {
 			Dir:    rapid.SampledFrom([]string{"out", "out", "in"}).Draw(t, "hDir"),
 			Type:   rapid.SampledFrom(types).Draw(t, "hType"),
 			Before: rapid.IntRange(0, 3).Draw(t, "hBefore") == 0,
+		}
+		if h.Dir == "out" && rapid.IntRange(0, 9).Draw(t, "hModifies") < 2 {
+			h.Modify = true
 		}
 		if h.Dir == "out" && rapid.IntRange(0, 9).Draw(t, "hRefuses") < 4 {
 			h.Mod = rapid.IntRange(1, 4).Draw(t, "hMod")
@@ -98,6 +102,9 @@ func checkC19(c *C19Case, rec *evid.Rec) (vs []pbt.Violation) {
 				}
 				if hs.Dir == "out" {
 					h.HandleOutgoing(mt, func(msg simplefixgo.SendingMessage) bool {
+						if hs.Modify {
+							msg.HeaderBuilder().SetFieldTargetCompID(fmt.Sprintf("MOD%d", i))
+						}
 						b, _ := msg.ToBytes()
 						k := calls[i]
 						calls[i]++
@@ -303,7 +310,14 @@ func checkC19(c *C19Case, rec *evid.Rec) (vs []pbt.Violation) {
 			if len(got) != len(want) && len(vs) == 0 {
 				vs = append(vs, pbt.V("handler-skipped", "message #%d (type %s) was transmitted but only handlers %v of %v ran", n, a.msgType, got, want))
 			}
-			for _, hc := range a.handlerCalls {
+			// every handler that ran after the last modifying one saw exactly the transmitted bytes
+			from := 0
+			for k, hc := range a.handlerCalls {
+				if c.Handlers[atoi(hc.Name)].Modify {
+					from = k
+				}
+			}
+			for _, hc := range a.handlerCalls[from:] {
 				if !bytes.Equal(hc.Bytes, a.wire) {
 					vs = append(vs, pbt.V("handler-saw-different-bytes", "message #%d: outgoing handler %s saw %s, transmitted %s", n, hc.Name, ref.Show(hc.Bytes), ref.Show(a.wire)))
 					break
@@ -374,7 +388,7 @@ func checkC19(c *C19Case, rec *evid.Rec) (vs []pbt.Violation) {
 	nontrivial := (refusals > 0 || failures > 0) && (outPool >= 2 || inPool >= 2)
 	abstract := c.Cfg.Role + fmt.Sprint(c.Cfg.FailSaves)
 	for _, hs := range c.Handlers {
-		abstract += fmt.Sprintf("|%s:%s:%v:%d/%d", hs.Dir, hs.Type, hs.Before, hs.Rem, hs.Mod)
+		abstract += fmt.Sprintf("|%s:%s:%v:%d/%d:%v", hs.Dir, hs.Type, hs.Before, hs.Rem, hs.Mod, hs.Modify)
 	}
 	rec.Case(evid.FPs(abstract), nontrivial)
 	if refusals > 0 {
@@ -382,6 +396,12 @@ func checkC19(c *C19Case, rec *evid.Rec) (vs []pbt.Violation) {
 	}
 	if failures > 0 {
 		rec.Hist("with-save-failure")
+	}
+	for _, hs := range c.Handlers {
+		if hs.Modify {
+			rec.Hist("modifying-outgoing-handler")
+			break
+		}
 	}
 	rec.Hist(fmt.Sprintf("out-handlers=%d", outPool))
 	rec.Hist(fmt.Sprintf("in-handlers=%d", inPool))
